@@ -44,9 +44,27 @@ def materialise(desc):
     elif fam == 'chain':
         sc = scenes.close_chain_scene(rng, order=k.get('order'), nce=k.get('nce'))
         prm = {'call': base_prms(rng, sc, k), 'glob': {}}
+    elif fam == 'manysplit':
+        sc = scenes.many_split_scene(rng)
+        prm = {'call': copy.deepcopy(scenes.PRMS_MANY_SPLIT), 'glob': {}}
+    elif fam == 'sepprobe':
+        ms = float(k['min_sep'])
+        sc = scenes.sep_probe_scene(rng, ms, k['eps'], base=float(k.get('base', 1000.0)), order=k.get('order', 'asc'))
+        prm = {'call': {'MIN_SEP_VALS': [ms], 'MIN_SEP_LIMS': [],
+                        'SLICING_PRMS': {'distance_threshold': 0.1, 'height_scale_kwargs': {'min_range': ms}},
+                        'BASE_LVL_HEIGHT_PERC': float(k.get('perc', 5)), 'LAYERING_PRMS': {'min_okta_to_split': 9}},
+               'glob': {}}
     elif fam == 'manyslices':
         sc = scenes.many_slices_scene(rng)
         prm = {'call': copy.deepcopy(scenes.PRMS_MANY_SLICES), 'glob': {}}
+    elif fam == 'refdata':
+        sc = scenes.refdata_scene(rng, k['file'], k.get('perturb', 0))
+        if k.get('default_prms'):
+            prm = {'call': {}, 'glob': {}}
+        else:
+            prm = scenes.gen_prms(rng, sc, scaling=k.get('scaling', False), rich=k.get('rich', False))
+        if sc.get('msa') is not None and 'MSA' not in prm['call']:
+            prm['call']['MSA'] = sc['msa']
     elif fam == 'degenerate':
         sc = scenes.degenerate_scene(rng, k['kind'])
         prm = scenes.gen_prms(rng, sc, rich=k.get('rich', False))
@@ -127,6 +145,12 @@ def flat_okta_case(rng, k):
             msa = hs[m[1]]
         elif m[0] == 'justbelow':
             msa = hs[m[1]] - 20.0      # inside the same 100-ft coding step for bases like x070
+        elif m[0] == 'ulpabove':
+            msa = float(np.nextafter(hs[m[1]], np.inf))
+        elif m[0] == 'tinyabove':
+            msa = hs[m[1]] * (1 + 4e-6) + 1e-4
+        elif m[0] == 'ulpbelow':
+            msa = float(np.nextafter(hs[m[1]], -np.inf))
         else:
             raise ValueError(m)
         call['MSA'] = float(msa)
